@@ -404,7 +404,12 @@ func TestWorker(t *testing.T) {
 			if len(tr) > 80 {
 				tr = tr[:80]
 			}
-			res.Sample = &Sample{PlanRaw: json.RawMessage(pb), Trace: tr, Summary: res.Summary}
+			var praw any = json.RawMessage(pb)
+			if len(pb) > 16384 {
+				// plans that carry megabyte bodies would make the evidence file unreadable
+				praw = map[string]any{"plan_bytes": len(pb), "plan_head": string(pb[:4096])}
+			}
+			res.Sample = &Sample{PlanRaw: praw, Trace: tr, Summary: res.Summary}
 		}
 		if !keepTrace {
 			res.Trace = nil
